@@ -83,6 +83,35 @@ theorem compound_transparent (ls : List Layer) (op : BinOp) (hs : isShift op = f
   apply cast_nest
   simp [depth_nest]
 
+/-- compound assignment with a bare integer on the right; with `r = 1` this is `++` / `--`
+(`scaled/inc_dec_operator.h`, `overflow/custom_operator.h`: the prefix and postfix operators add or
+subtract one through the assignment operator): equivalent to adding or subtracting one on the
+bare integer and converting back -/
+theorem compound_int_transparent (ls : List Layer) (op : BinOp) (hs : isShift op = false)
+    (L R : IntTy) (l r : Int) :
+    Layered.compound op (nest ls L, l) (.int R, r)
+      = (cBin op (L, l) (R, r)) >>= fun v => .ok (nest ls L, L.wrap v.2) := by
+  unfold Layered.compound
+  rw [bin_int_right_transparent ls op hs]
+  cases h : cBin op (L, l) (R, r) <;> simp [Res.map, Res.bind, bind]
+  rename_i v
+  show Layered.cast _ _ = _
+  unfold Layered.cast
+  apply cast_nest
+  simp [depth_nest]
+
+/-- `++x` / `--x` on any native nest: the operand becomes `x ± 1` computed as the built-in
+expression `x = x ± 1` would (including its undefined cases) -/
+theorem increment_transparent (ls : List Layer) (L : IntTy) (l : Int) :
+    Layered.compound .add (nest ls L, l) (.int i32, 1)
+      = (cBin .add (L, l) (i32, 1)) >>= fun v => .ok (nest ls L, L.wrap v.2) :=
+  compound_int_transparent ls .add rfl L i32 l 1
+
+theorem decrement_transparent (ls : List Layer) (L : IntTy) (l : Int) :
+    Layered.compound .sub (nest ls L, l) (.int i32, 1)
+      = (cBin .sub (L, l) (i32, 1)) >>= fun v => .ok (nest ls L, L.wrap v.2) :=
+  compound_int_transparent ls .sub rfl L i32 l 1
+
 /-! Non-vacuity: concrete instances (a three-deep nest over 8/16-bit reps). -/
 example : Layered.bin .add (nest [.sc 2, .ov, .rd] i8, 100) (nest [.sc 2, .ov, .rd] i16, 28)
     = .ok (nest [.sc 2, .ov, .rd] i32, 128) := by decide
